@@ -124,6 +124,10 @@ def gen_positions(rng, n, H, nd=3):
     return out
 
 
+def nbkind_unfold_ok(ppp):
+    return True
+
+
 def gen_case(rng, tier="quick"):
     n = rng.randint(5, 12)
     kind = rng.choice(["orth", "orth", "tri"])
@@ -144,6 +148,8 @@ def gen_case(rng, tier="quick"):
         for p in prev:
             nxt.append([f"{float(x) + rng.randint(-150, 150) / 1000:.3f}" for x in p])
         frames.append(nxt)
+    if rng.random() < 0.3 and nbkind_unfold_ok(ppp):
+        frames = [common.unfold_positions(rng, fr, H, ppp) for fr in frames]      # unfolded (xu) coordinates
     if T == 3 and rng.random() < 0.4:
         steps = [0, 10, 30]          # non-uniform -> "log" branch of time_correlation
     else:
